@@ -107,7 +107,7 @@ def merge_counts(dst, src):
         dst[k] = dst.get(k, 0) + v
 
 
-def run_check(prop, tier, spec, nworkers=None, runs=None, budget_s=None, quiet=False, write_evidence=True, env_extra=None):
+def run_check(prop, tier, spec, nworkers=None, runs=None, budget_s=None, quiet=False, write_evidence=True, env_extra=None, replay_dir=None):
     """Run one check. Returns (exit_code, summary dict)."""
     t0 = time.monotonic()
     base = base_seed()
@@ -230,7 +230,7 @@ def run_check(prop, tier, spec, nworkers=None, runs=None, budget_s=None, quiet=F
     # ---- violations: confirm, minimise, write replay files ---------------
     new_violations = []
     known_lines = []
-    replay_dir = os.path.join(VERIF_ROOT, "replays")
+    replay_dir = replay_dir or os.path.join(VERIF_ROOT, "replays")
     os.makedirs(replay_dir, exist_ok=True)
     min_budget = tcfg.get("minimise_s", 20)
     keys = sorted(viol_by_key, key=lambda k: (match_finding(findings, prop, k) is not None, k))
